@@ -142,13 +142,19 @@ var c08Assumed = map[string]string{
 	"NewUDPClientTransportWithConn": "net.ResolveUDPAddr(\"udp\", conn.LocalAddr().String()) does not fail for a bound UDP socket, so the constructor does not return nil",
 }
 
-func c08Panics(c *Ctx) {
+func c08Panics(c *Ctx) { c08PanicsIn(c, "panic-obligations", "") }
+
+// c08PanicsIn evaluates the panic obligations of the network-reachable functions whose name starts with prefix (all of
+// them for ""), under the given rule name: other properties share the obligations of the code they depend on.
+func c08PanicsIn(c *Ctx, rule string, prefix string) {
 	w := c.w
-	rule := "panic-obligations"
 	reach := w.networkReachable()
 	counts := map[string]int{}
 	var fns []*ssa.Function
 	for fn := range reach {
+		if prefix != "" && !strings.HasPrefix(w.fname(fn), prefix) {
+			continue
+		}
 		fns = append(fns, fn)
 	}
 	sort.Slice(fns, func(i, j int) bool { return w.fname(fns[i]) < w.fname(fns[j]) })
@@ -274,6 +280,9 @@ func c08Panics(c *Ctx) {
 				}
 			}
 		})
+	}
+	if prefix != "" {
+		return // a shared subset: the package-wide parts and the population floor belong to C08 itself
 	}
 	c08ErrorPaired(c, reach)
 	c08NilEscape(c, reach)
